@@ -2,7 +2,7 @@
    the model-level theorems stated on `balance` (cleanupMounts; setupLookupTables; balanceBlock),
    the _refuted witnesses for the open findings and the _partial "model meets the specification". *)
 From Coq Require Import List Arith Bool Lia Permutation NArith.
-From AV Require Import model.C05_model model.C05_run proofs.C05_proofs proofs.C05_safety proofs.C05_repl proofs.C05_phys.
+From AV Require Import model.C05_model model.C05_old_model model.C05_run proofs.C05_proofs proofs.C05_safety proofs.C05_repl proofs.C05_phys.
 Import ListNotations.
 
 (* ---------- Prop-level specification of an output (trash list, pull list, lost flag) ---------- *)
@@ -155,15 +155,15 @@ Section Balance.
 Variables (dflt : nat) (rank devrank : nat -> nat) (minMtime : nat).
 Variables (raw : list mnt) (sro : list nat) (repl desired : list (nat * nat)).
 Let eff := setup raw sro.
-Let out := balance dflt rank devrank minMtime raw sro repl desired.
+Let out := balance_old dflt rank devrank minMtime raw sro repl desired.
 
 Theorem trash_old_only m t : In (Trash m t) (fst out) -> t < minMtime /\ In (m, t) repl.
-Proof using Type. intros H. unfold out, balance in H. apply block_trash_ok in H. tauto. Qed.
+Proof using Type. intros H. unfold out, balance_old in H. apply block_trash_ok in H. tauto. Qed.
 
 Theorem trash_writable_only m t : In (Trash m t) (fst out) ->
   exists r, In r raw /\ mid r = m /\ mro r = false /\ ~ In (msrv r) sro.
 Proof using Type.
-  intros H. unfold out, balance in H. apply block_trash_ok in H. destruct H as (_ & _ & x & Hx & <- & Hro).
+  intros H. unfold out, balance_old in H. apply block_trash_ok in H. destruct H as (_ & _ & x & Hx & <- & Hro).
   destruct (setup_raw _ _ _ Hx Hro) as (r & A & B & C & D & E). exists r. auto.
 Qed.
 
@@ -173,24 +173,24 @@ Theorem pull_targets_ok m f : In (Pull m f) (fst out) ->
   exists m0 t0 rest, repl = (m0, t0) :: rest /\
      f = match find (fun x => mid x =? m0) raw with Some x => msrv x | None => 0 end.
 Proof using Type.
-  intros H. unfold out, balance in H. apply block_pull_ok in H. destruct H as ((x & Hx & <- & Hro) & H2 & H3).
+  intros H. unfold out, balance_old in H. apply block_pull_ok in H. destruct H as ((x & Hx & <- & Hro) & H2 & H3).
   split; [|split; assumption].
   destruct (setup_raw _ _ _ Hx Hro) as (r & A & B & C & D & E). exists r. auto.
 Qed.
 
 Theorem no_trash_when_flag :
-  under_flag dflt rank devrank eff repl (classes_of dflt eff) desired = true -> trashes (fst out) = [].
+  under_flag_old dflt rank devrank eff repl (classes_of dflt eff) desired = true -> trashes (fst out) = [].
 Proof using Type.
   intros F. destruct (trashes (fst out)) as [|[m t] r] eqn:E; [reflexivity|exfalso].
   assert (In (m, t) (trashes (fst out))) by (rewrite E; left; reflexivity).
-  apply in_trashes in H. unfold out, balance in H. fold eff in H. eapply block_no_trash_when_flag; eauto.
+  apply in_trashes in H. unfold out, balance_old in H. fold eff in H. eapply block_no_trash_when_flag; eauto.
 Qed.
 
 Theorem lost_reported k :
   repl = [] -> In k (classes_of dflt eff) -> 0 < lookup desired k ->
   (exists x, In x eff /\ mro x = false) -> snd out = true.
 Proof using Type.
-  intros -> Hk Hd Hw. unfold out, balance. fold eff. eapply block_lost_reported; eauto.
+  intros -> Hk Hd Hw. unfold out, balance_old. fold eff. eapply block_lost_reported; eauto.
 Qed.
 End Balance.
 
@@ -215,30 +215,30 @@ Qed.
 
 Theorem model_meets_spec_partial c :
   hyp_b c = true ->
-  let '(chs, lost) := m_out c in Spec c (trashes chs) (pulls chs) lost.
+  let '(chs, lost) := m_out_old c in Spec c (trashes chs) (pulls chs) lost.
 Proof.
   unfold hyp_b. set (eff := setup (c_raw c) (c_sro c)). rewrite !andb_true_iff.
   intros [[[[[H1 H2] H3] H4] H5] H6].
   apply nodupb_NoDup in H1, H2, H4.
   assert (U : unshared eff) by (split; assumption).
-  unfold m_out. set (rk := fun s => nth s (c_rank c) 0). set (dr := fun d => nth d (c_devrank c) 0).
-  destruct (balance (c_dflt c) rk dr (c_min c) (c_raw c) (c_sro c) (c_repl c) (c_desired c)) as [chs lost] eqn:E.
-  assert (Ec : chs = fst (balance (c_dflt c) rk dr (c_min c) (c_raw c) (c_sro c) (c_repl c) (c_desired c))) by (rewrite E; reflexivity).
-  assert (El : lost = snd (balance (c_dflt c) rk dr (c_min c) (c_raw c) (c_sro c) (c_repl c) (c_desired c))) by (rewrite E; reflexivity).
+  unfold m_out_old. set (rk := fun s => nth s (c_rank c) 0). set (dr := fun d => nth d (c_devrank c) 0).
+  destruct (balance_old (c_dflt c) rk dr (c_min c) (c_raw c) (c_sro c) (c_repl c) (c_desired c)) as [chs lost] eqn:E.
+  assert (Ec : chs = fst (balance_old (c_dflt c) rk dr (c_min c) (c_raw c) (c_sro c) (c_repl c) (c_desired c))) by (rewrite E; reflexivity).
+  assert (El : lost = snd (balance_old (c_dflt c) rk dr (c_min c) (c_raw c) (c_sro c) (c_repl c) (c_desired c))) by (rewrite E; reflexivity).
   assert (Hcls : forall k d, In (k, d) (c_desired c) -> 0 < d ->
              lookup (c_desired c) k = d /\ In k (classes_of (c_dflt c) eff) /\ NoDup (map msrv (filter (inclass (c_dflt c) k) eff))).
   { intros k d Hin Hd. rewrite forallb_forall in H5. specialize (H5 _ Hin). simpl in H5.
     apply Nat.ltb_lt in Hd. rewrite Hd in H5. simpl in H5. apply andb_true_iff in H5. destruct H5 as [A B].
     split; [apply lookup_In; auto|]. split; [apply mem_In; exact A|apply nodupb_NoDup; exact B]. }
   unfold Spec. fold eff. split; [|split; [|split; [|split]]].
-  - intros m t Hin. apply in_trashes in Hin. rewrite Ec in Hin. unfold balance in Hin. fold eff in Hin.
+  - intros m t Hin. apply in_trashes in Hin. rewrite Ec in Hin. unfold balance_old in Hin. fold eff in Hin.
     apply block_trash_ok in Hin. destruct Hin as (A & B & x & Hx & Em & Hro). split; [exact B|]. split; [exact A|].
     exists x. auto.
   - intros k d Hin Hd Hlt. destruct (Hcls k d Hin Hd) as (L & Ck & _). rewrite Ec.
     eapply under_partial; eauto; fold eff; rewrite ?L; auto.
   - intros k d Hin Hd. destruct (Hcls k d Hin Hd) as (L & Ck & Ns). rewrite Ec, <- L.
     apply pres_partial; fold eff; rewrite ?L; auto.
-  - intros m f Hin. apply in_pulls in Hin. rewrite Ec in Hin. unfold balance in Hin. fold eff in Hin.
+  - intros m f Hin. apply in_pulls in Hin. rewrite Ec in Hin. unfold balance_old in Hin. fold eff in Hin.
     apply block_pull_ok in Hin. destruct Hin as ((x & Hx & Em & Hro) & B & (m0 & t0 & rest & Er & Ef)).
     split; [exists x; auto|]. split; [exact B|].
     rewrite forallb_forall in H3. assert (In (m0, t0) (c_repl c)) by (rewrite Er; left; reflexivity).
@@ -251,8 +251,8 @@ Proof.
     rewrite Hr. eapply block_lost_reported; [exact Ck|rewrite L; exact Hd|exists x; auto].
 Qed.
 
-Corollary model_spec_partial c : hyp_b c = true -> model_spec c = true.
+Corollary model_spec_partial c : hyp_b c = true -> model_spec_old c = true.
 Proof.
-  intros H. pose proof (model_meets_spec_partial c H) as S. unfold model_spec.
-  destruct (m_out c) as [chs lost]. apply spec_core_reflects. exact S.
+  intros H. pose proof (model_meets_spec_partial c H) as S. unfold model_spec_old.
+  destruct (m_out_old c) as [chs lost]. apply spec_core_reflects. exact S.
 Qed.
